@@ -2,6 +2,7 @@ package main
 
 import (
 	"fmt"
+	"strings"
 	"time"
 
 	"github.com/intuitivelabs/sipsp"
@@ -144,7 +145,11 @@ func checkC20(r *Run) {
 		vs, has := evalC20(s)
 		c.st.Evals++
 		c.st.Transitions += 3
+		if !has {
+			c.st.Outcomes["no-address"]++
+		}
 		if has {
+			c.st.Outcomes["contains-address"]++
 			c.st.Nontrivial++
 			c.st.States++
 			if len(c.st.Samples) < 1 && len(s) > 9 {
@@ -179,6 +184,18 @@ func checkC20(r *Run) {
 			}
 		}
 		rec(nil, nil, r.pick(5, 6))
+		// long surroundings (several hundred bytes) of fillers that stress the dot / digit scanning
+		for _, fill := range []string{"x", "1", ".", "1.", "12.", "999.", "x1", "1234"} {
+			for _, n := range []int{7, 64, 255, 256, 300} {
+				pre := []byte(strings.Repeat(fill, n/len(fill)+1))[:n]
+				for _, sepa := range []string{"", "x", ".", " "} {
+					for _, post := range []string{"", "x", "9", ".5", strings.Repeat(fill, 20)} {
+						s := append(append(append(append([]byte(nil), pre...), sepa...), a...), post...)
+						run(c, s)
+					}
+				}
+			}
+		}
 	})
 }
 
